@@ -43,7 +43,7 @@ func c15New(T time.Duration) *DialogBasedBackend {
 func TestC15(t *testing.T) {
 	V.Rule("unit, measured time: rapid state machine over pin(d, Expires in {0,1,2,2^31-1} s) / lookup / terminate / sleep / traffic on a pin table with timeout T in {30,60,120} ms; a lookup whose latest possible age is below the lifetime max(T, Expires) must find the pinned backend, one whose earliest possible age is at or beyond it must not, anything between is a don't-care; after terminate: not found. Boundedness scenarios: expired keys plus one huge-Expires pin, then steady traffic at measured gaps <= T/4 for 3T: every key expired more than 1.5T ago must be gone from the table and the table size stays bounded. non-trivial = history with a probe on each side of an expiry, or a termination followed by a probe, or a huge-Expires pin followed by >= 2T of traffic; distinct by history text. lab / bin: the same on a real proxy with a 1 s dialog timeout (termination histories of BYE / NOTIFY / in-dialog probes; a BYE answered with each of 45 notable final statuses - thorough: every status 200-699 - must dissolve the pin; expiry probes with measured ages)")
 	V.Assume("time is measured around every product call; scheduling delays can only turn a judged probe into a don't-care (a boundedness scenario whose measured traffic gap exceeds T/4 is skipped and counted)")
-	V.Require("probe before expiry", "probe after expiry", "terminate then probe", "huge Expires pin", "boundedness scenario judged")
+	V.Require("lab: the pin outlives an outage of its backend", "probe before expiry", "probe after expiry", "terminate then probe", "huge Expires pin", "boundedness scenario judged")
 
 	rcheck(t, "lifetimes", V.N(100, 600), func(rt *rapid.T) {
 		T := time.Duration(rapid.SampledFrom([]int{30, 60, 120}).Draw(rt, "T_ms")) * time.Millisecond
@@ -229,6 +229,30 @@ func TestC15(t *testing.T) {
 	})
 
 	c15ProxyBoundedness(t)
+
+	// a fault history on a service with the default dialog timeout (20 min): an
+	// outage of the pinned backend dissolves nothing
+	if osvc, err := newStdSvc(stdVariant{Pool: 2, PoolTCP: true}); err != nil {
+		V.HarnessError(t, "cannot start lab instance: %v", err)
+	} else {
+		rcheck(t, "backend-outage", V.N(12, 150), func(rt *rapid.T) {
+			obs, ok, err := osvc.backendOutage(rt, t.Name()+"/backend-outage")
+			if _, lost := err.(labLost); lost {
+				failf(rt, "%v\nhistory: %s", err, obs)
+			} else if err != nil {
+				V.HarnessError(rt, "%v", err)
+			}
+			if !ok {
+				return
+			}
+			V.Class("lab: the pin outlives an outage of its backend")
+			V.NonTrivial("outage|" + obs.String())
+			V.SampleEvery(10, func() any { return obs })
+			if f := outageSticky(obs); f != "" {
+				failf(rt, "%s", f)
+			}
+		})
+	}
 
 	// ---- lab part: the wiring (dialogTimeout, Expires, BYE / NOTIFY paths) on a real proxy
 	c15Lab(t, stdVariant{Pool: 4, Timeout: 1}, "lab")
